@@ -279,7 +279,12 @@ def run(ctx):
         if ctx.out_of_time():
             ctx.count("truncated_by_budget")
             break
-        variants = corpus.variants(r, rng, k=2 if ctx.quick else 4)
+        variants = corpus.variants(r, rng, k=2 if ctx.quick else 6)
+        if not ctx.quick:
+            for _ in range(3):
+                w = corpus.rewrite(r, rng)
+                if w:
+                    variants.append(("rewrite+renumber", corpus.renumber(w, rng)))
         check_canon(ctx, r, variants)
         check_standardize(ctx, r, variants)
         check_validator(ctx, r, [v for v in variants if v[0].startswith("renumber") or v[0].startswith("rewrite")][:3])
